@@ -139,6 +139,7 @@ def denotation(out):
     for r in out[1][1]:
         attrs = []
         for k, v in r[6]:
+            if k in ("IsAbstract", "Symmetric") and v == ["b", "false"]: continue      # false and missing are the same statement (the column exists per file)
             attrs.append((k, ("n",) + key_of_nid(v[1], ns)) if v[0] == "n" else (k, tuple(v)))
         rows.append((r[0], key_of_nid(r[1], ns), r[2], None if r[3] == [] else ns[int(r[3][0])], r[4], r[5], tuple(sorted(attrs)), str(r[7])))
     refs = sorted(tuple(key_of_nid(x, ns) for x in t) for t in out[1][2])
@@ -168,7 +169,8 @@ def make_case(rng, quick):
     g = nsgen.gen_graph(rng, n_ns=rng.randint(1, 3), n_nodes=rng.randint(1, 7 if quick else 10), value_gen=value_gen)
     # one case in five: companion specifications parsed on their own - everything of the base namespace they name (types, parents, reference types) is undefined
     g.with_base = rng.random() >= 0.2
-    ds = nsgen.serialise(g, rng, value_xml=value_xml, with_base=g.with_base)
+    g.split = rng.random() < 0.35
+    ds = nsgen.serialise(g, rng, value_xml=value_xml, with_base=g.with_base, split=g.split)
     return g, ds
 
 def originals_of(g, ds):
@@ -338,7 +340,7 @@ def run(ctx, prop):
             if prop in ("C02", "C03") and outs[0][1][0] == "ok":
                 base = denotation(outs[0][1])
                 for v in range(2):
-                    ds2 = nsgen.serialise(g, rng, value_xml=value_xml, with_base=g.with_base)
+                    ds2 = nsgen.serialise(g, rng, value_xml=value_xml, with_base=g.with_base, split=g.split)
                     files2, _ = render_set(ds2, rng)
                     caller = rng.choice([None, [UA] + g.uris[::-1]])
                     out2, _ = parsecmp.impl_parse(work, files2, caller)
